@@ -24,6 +24,15 @@
 //   poly.rr5 / poly.check / poly.rr6 / poly.rr5d / poly.checkd / poly.rr6d   p dk fr nP c0 .. c(nP-1) nM c0 .. c(nM-1)
 //       rr5 = ratrecon(N,D,P,M,dk), check = ratreconcheck(N,D,P,M,dk), rr6 = ratrecon(N,D,P,M,dk,fr)
 //       output: "<ok> N <coeffs low degree first> D <coeffs>"   (leading zeros stripped)
+//   <poly variant>.al<j>  (j = 0..3)  the same call with an output being the same object as an input:
+//       0: N is P   1: N is M   2: D is P   3: D is M      (the output object starts as a copy of that input)
+// aliased integer call forms (an output is the same object as an input; the output object starts as a copy of it):
+//   ratrecon.al<j> f m k fr rc   j = 0..5: num is f / m / k, den is f / m / k          Rational::ratrecon, 7 arguments
+//   rr7.al<j>      f m k fr rc   j = 0..5: the same for Rational::RationalReconstruction, 7 arguments
+//   rr4.al<j>      f m           j = 0..3: a is f / m, b is f / m
+//   rr6.al<j>      f m ab bb     j = 0..7: a is f / m / a_bound / b_bound, b is f / m / a_bound / b_bound
+//   consts                        prints "CONSTS <int Reduce> <int NoReduce> <bool Reduce> <bool NoReduce> <KARA_THRESHOLD> <SQR_THRESHOLD>"
+//                                 (the values the compiled code uses: Rational::flags is passed where a bool forcereduce is expected)
 // The library prints diagnostics on std::cerr when a reconstruction fails: stderr goes to /dev/null.
 #include <iostream>
 #include <sstream>
@@ -60,7 +69,20 @@ static void polycase(const std::string& v, const std::vector<Integer>& a) {
     for (size_t i = 0; i < nM; ++i) F.init(M[i], a[5 + nP + i]);
     PZ.init(N, Degree(2)); PZ.init(D, Degree(1));      // destinations start non-empty
     bool ok;
-    if (v == "poly.rr5" || v == "poly.rr5d") ok = PZ.ratrecon(N, D, P, M, Degree(dk));
+    int al = -1;
+    std::string base = v;
+    size_t pa = v.find(".al");
+    if (pa != std::string::npos) { al = v[pa + 3] - '0'; base = v.substr(0, pa); }
+    if (al >= 0) {
+        // an output is the same object as an input
+        typename PD::Element& rN = (al == 0) ? P : (al == 1) ? M : N;
+        typename PD::Element& rD = (al == 2) ? P : (al == 3) ? M : D;
+        if (base == "poly.rr5" || base == "poly.rr5d") ok = PZ.ratrecon(rN, rD, P, M, Degree(dk));
+        else if (base == "poly.check" || base == "poly.checkd") ok = PZ.ratreconcheck(rN, rD, P, M, Degree(dk));
+        else ok = PZ.ratrecon(rN, rD, P, M, Degree(dk), fr);
+        PZ.assign(N, rN); PZ.assign(D, rD);
+    }
+    else if (v == "poly.rr5" || v == "poly.rr5d") ok = PZ.ratrecon(N, D, P, M, Degree(dk));
     else if (v == "poly.check" || v == "poly.checkd") ok = PZ.ratreconcheck(N, D, P, M, Degree(dk));
     else ok = PZ.ratrecon(N, D, P, M, Degree(dk), fr);
     PZ.setdegree(N); PZ.setdegree(D);
@@ -84,9 +106,50 @@ int main() {
         if (v.empty()) continue;
         std::vector<Integer> a; std::string t;
         while (is >> t) a.push_back(Integer(t.c_str()));
+        if (v == "consts") {
+            std::cout << "CONSTS " << (int)Rational::Reduce << " " << (int)Rational::NoReduce << " "
+                      << (bool(Rational::Reduce) ? 1 : 0) << " " << (bool(Rational::NoReduce) ? 1 : 0) << " "
+                      << (long)(KARA_THRESHOLD) << " " << (long)(SQR_THRESHOLD) << std::endl;
+            continue;
+        }
         if (v.compare(0, 5, "poly.") == 0) {
-            if (v == "poly.rr5" || v == "poly.check" || v == "poly.rr6") polycase<Modular<int64_t> >(v, a);
-            else if (v == "poly.rr5d" || v == "poly.checkd" || v == "poly.rr6d") polycase<Modular<double> >(v, a);
+            std::string base = v.substr(0, v.find(".al"));
+            if (base == "poly.rr5" || base == "poly.check" || base == "poly.rr6") polycase<Modular<int64_t> >(v, a);
+            else if (base == "poly.rr5d" || base == "poly.checkd" || base == "poly.rr6d") polycase<Modular<double> >(v, a);
+            else std::cout << "BAD-LINE" << std::endl;
+            continue;
+        }
+        if (v.find(".al") != std::string::npos && v.size() == v.find(".al") + 4) {
+            // aliased integer forms: the output object IS one of the inputs
+            std::string base = v.substr(0, v.find(".al"));
+            int j = v[v.size() - 1] - '0';
+            bool ok = true;
+            Integer o1(987654321), o2(123456789);     // the output that is not aliased
+            if ((base == "ratrecon" || base == "rr7") && a.size() == 5 && j >= 0 && j <= 5) {
+                Integer f(a[0]), m(a[1]), k(a[2]);
+                Integer* in[3] = { &f, &m, &k };
+                Integer& num = (j < 3) ? *in[j] : o1;
+                Integer& den = (j >= 3) ? *in[j - 3] : o2;
+                if (base == "ratrecon") ok = Rational::ratrecon(num, den, f, m, k, B(a[3]), B(a[4]));
+                else ok = Rational::RationalReconstruction(num, den, f, m, k, B(a[3]), B(a[4]));
+                std::cout << (ok ? 1 : 0) << " " << num << " " << den << std::endl;
+            }
+            else if (base == "rr4" && a.size() == 2 && j >= 0 && j <= 3) {
+                Integer f(a[0]), m(a[1]);
+                Integer* in[2] = { &f, &m };
+                Integer& num = (j < 2) ? *in[j] : o1;
+                Integer& den = (j >= 2) ? *in[j - 2] : o2;
+                ok = Rational::RationalReconstruction(num, den, f, m);
+                std::cout << (ok ? 1 : 0) << " " << num << " " << den << std::endl;
+            }
+            else if (base == "rr6" && a.size() == 4 && j >= 0 && j <= 7) {
+                Integer f(a[0]), m(a[1]), ab(a[2]), bb(a[3]);
+                Integer* in[4] = { &f, &m, &ab, &bb };
+                Integer& num = (j < 4) ? *in[j] : o1;
+                Integer& den = (j >= 4) ? *in[j - 4] : o2;
+                ok = Rational::RationalReconstruction(num, den, f, m, ab, bb);
+                std::cout << (ok ? 1 : 0) << " " << num << " " << den << std::endl;
+            }
             else std::cout << "BAD-LINE" << std::endl;
             continue;
         }
